@@ -405,6 +405,10 @@ def _container_payload(st: SchemaType, args: List[ast.expr], vals: Dict[str, V],
 
 R = "d42/representation/_representor.py"
 MUTANTS = [
+    {"name": "`|` appends its right operand to an existing union without flattening it", "rule": "CANONICAL-ANY",
+     "edits": [("d42/declaration/__init__.py", "    return schema.any(self, other)\n",
+                "    if isinstance(self, AnySchema) and self.props.types is not Nil and isinstance(other, Schema):\n        return self.__class__(self.props.update(types=self.props.types + (other,)))\n    return schema.any(self, other)\n"),
+               ("d42/declaration/__init__.py", "def union(self: GenericSchema, other: Any) -> AnySchema:", "from niltype import Nil  # noqa: E402\n\n\ndef union(self: GenericSchema, other: Any) -> AnySchema:")]},
     {"name": "int max() rejects a maximum equal to the declared minimum, min() accepts the mirror case", "rule": "EMIT-REPLAY",
      "edits": [("d42/declaration/types/_int_schema.py", "        if (self.props.value is not Nil) and (value > self.props.value):\n            raise make_incorrect_min_error(self, self.props.value, value)\n", "        if (self.props.value is not Nil) and (value > self.props.value):\n            raise make_incorrect_min_error(self, self.props.value, value)\n        if (self.props.max is not Nil) and (value > self.props.max):\n            raise make_incorrect_min_error(self, self.props.max, value)\n"),
                ("d42/declaration/types/_int_schema.py", "        if (self.props.value is not Nil) and (value < self.props.value):\n            raise make_incorrect_max_error(self, self.props.value, value)\n", "        if (self.props.value is not Nil) and (value < self.props.value):\n            raise make_incorrect_max_error(self, self.props.value, value)\n        if (self.props.min is not Nil) and (value <= self.props.min):\n            raise make_incorrect_max_error(self, self.props.min, value)\n")]},
